@@ -18,6 +18,7 @@ from . import harness, membackend, refcodec
 from .harness import Repository
 
 GRAPHS = ('plain', 'same', 'shared', 'clone', 'indep', 'mixed')
+MORE_GRAPHS = ('chain',)      # a owner, b shared from a, c shared from b, d independent, e clone of d
 EPOCH = _dt.datetime(2030, 1, 1)
 
 
@@ -59,6 +60,11 @@ class Session:
         elif graph == 'mixed':
             w.add_key('a', 'b', b'pw-b', shared=True, cache=cache_of('b'), settings_=fk())
             w.add_key('a', 'c', b'pw-c', cache=cache_of('c'), settings_=fk())
+        elif graph == 'chain':
+            w.add_key('a', 'b', b'pw-b', shared=True, cache=cache_of('b'), settings_=fk())
+            w.add_key('b', 'c', b'pw-c', shared=True, cache=cache_of('c'), settings_=fk())
+            w.add_key('a', 'd', b'pw-d', cache=cache_of('d'), settings_=fk())
+            w.add_key('d', 'e', None, clone=True, cache=cache_of('e'), settings_=fk())
         else:
             raise ValueError(graph)
         self.users = sorted(w.users)
